@@ -81,18 +81,21 @@ func C07PKLengths(max int, thorough bool) []int {
 			out = append(out, v)
 		}
 	}
-	for _, v := range []int{0, 1, 2, max - 1, max, max + 1, max + 254, max + 255, max + 256, max + 509, max + 510, max + 511} {
+	for _, v := range []int{0, 1, 2, max - 1, max, max + 1, max + 254, max + 255, max + 256} {
 		add(v)
 	}
 	// the lengths the statement names for the two-bit variants are part of every variant's list
-	for _, v := range []int{62, 63, 64, 65, 317, 318, 319, 573} {
+	for _, v := range []int{62, 63, 64, 317, 318, 319} {
 		add(v)
 	}
-	k := (65535 - max) / 255
-	for _, v := range []int{max + 255*k - 1, max + 255*k, max + 255*k + 1, 65534, 65535} {
+	for _, v := range []int{65534, 65535} {
 		add(v)
 	}
 	if thorough {
+		k := (65535 - max) / 255
+		for _, v := range []int{max + 509, max + 510, max + 511, 65, 573, max + 255*k - 1, max + 255*k, max + 255*k + 1} {
+			add(v)
+		}
 		for _, v := range []int{3, 16, 30, 32, 33, 127, 128, 255, 256, 1000, 32767, 32768} {
 			add(v)
 		}
@@ -211,6 +214,11 @@ func C07Shapes(thorough bool) []C07Named {
 				}
 				for ci, kc := range c07KidCfgs() {
 					if long && ci > 1 {
+						continue
+					}
+					// quick tier: 5 of the 10 child configurations, no 64/16384-byte branch values
+					if !thorough && (ci == 1 || ci == 2 || ci == 5 || ci == 7 || ci == 8 ||
+						vc.name == "v=64inline" || vc.name == "v=16384inline") {
 						continue
 					}
 					if vc.name == "v=16384inline" && ci > 1 {
